@@ -71,3 +71,27 @@ Example ex_vmdk_text_raises : vsize_now F_vmdk [btake 30 ex_vmdk_text] = Exn Str
 Proof. vm_compute. reflexivity. Qed.
 Example ex_vmdk_text_garbage : vsize_now F_vmdk [btake 46 ex_vmdk_text] = Ok 3853699477345195186688%Z.
 Proof. vm_compute. reflexivity. Qed.
+
+(* VHDX: two region-table entries (BAT first), metadata region right behind the header area, two metadata entries
+   (file parameters first), size item 64 KiB into the region *)
+Definition ex_guid_bat : bytes := [102;119;194;45;35;246;0;66;157;100;17;94;155;253;74;8].
+Definition ex_guid_fp : bytes := [55;103;161;202;54;250;67;77;179;182;51;240;170;68;231;107].
+Definition ex_vhdx_layout : vhdx_layout := mkVhdxLayout 2 1 262144 2 1 65536.
+Definition ex_vhdx : bytes :=
+  patch 327680 (le_enc 8 ex_size)
+  (patch 262144 (SPEC_VHDX_META_SIG ++ [0;0] ++ le_enc 2 2 ++ zeros 20
+                 ++ ex_guid_fp ++ le_enc 4 65544 ++ le_enc 4 4 ++ zeros 8
+                 ++ SPEC_GUID_VDS ++ le_enc 4 65536 ++ le_enc 4 8 ++ zeros 8)
+  (patch 196608 (SPEC_VHDX_REGI ++ zeros 4 ++ le_enc 4 2 ++ zeros 4
+                 ++ ex_guid_bat ++ le_enc 8 3145728 ++ le_enc 4 1048576 ++ le_enc 4 1
+                 ++ SPEC_GUID_METAREGION ++ le_enc 8 262144 ++ le_enc 4 1048576 ++ le_enc 4 1)
+  (patch 0 SPEC_VHDX_IDENT (zeros 327700)))).
+Example ex_vhdx_wf : wf_vhdx ex_size ex_vhdx_layout ex_vhdx = true.
+Proof. vm_compute. reflexivity. Qed.
+(* as one chunk (the D1 situation) and cut inside the region table *)
+Example ex_vhdx_size_one_chunk : vsize_end F_vhdx [ex_vhdx] = Ok (Z.of_N ex_size).
+Proof. vm_compute. reflexivity. Qed.
+Example ex_vhdx_size_two_chunks : vsize_end F_vhdx (cut2 196700 ex_vhdx) = Ok (Z.of_N ex_size).
+Proof. vm_compute. reflexivity. Qed.
+Example ex_vhdx_prefix : vsize_now F_vhdx [btake 327687 ex_vhdx] = Ok 0%Z.
+Proof. vm_compute. reflexivity. Qed.
